@@ -192,8 +192,22 @@ Lemma pres_tracker_add : forall R sg, okrel0 R -> Pres R (tracker_add sg).
 Proof. intros R sg HR. unfold tracker_add. pres. Qed.
 #[export] Hint Resolve pres_tracker_add : pres.
 
+Lemma pres_remove_covered : forall R off e sg, okrel0 R -> Pres R (remove_covered off e sg).
+Proof. intros R off e sg HR. unfold remove_covered. pres. Qed.
+#[export] Hint Resolve pres_remove_covered : pres.
+
+Lemma pres_fold_remove_covered : forall R off e l (m : D unit), okrel0 R -> Pres R m ->
+  Pres R (fold_left (fun m sg => m ;;; remove_covered off e sg) l m).
+Proof.
+  intros R off e l. induction l as [|sg l IH]; intros m HR Hm; cbn [fold_left]; [exact Hm|].
+  apply IH; [exact HR|]. pres.
+Qed.
+
 Lemma pres_lost_segment_handling : forall R off len, okrel0 R -> Pres R (lost_segment_handling off len).
-Proof. intros R off len HR. unfold lost_segment_handling. pres. Qed.
+Proof.
+  intros R off len HR. unfold lost_segment_handling. pres.
+  all: try (apply pres_fold_remove_covered; [ok0 | pres]).
+Qed.
 #[export] Hint Resolve pres_lost_segment_handling : pres.
 
 Lemma pres_filestore_rejection : forall R, okrel R -> Pres R filestore_rejection.
@@ -674,11 +688,23 @@ Ltac errs_step :=
   | |- Errs _ _ => apply errs_total; intro; eexists; eexists; reflexivity
   end.
 
+Lemma errs_remove_covered : forall off e sg,
+  Errs (fun e => e = E_ASSERT \/ e = E_VALUE) (remove_covered off e sg).
+Proof. intros off e sg. unfold remove_covered. repeat errs_step; auto. Qed.
+
+Lemma errs_fold_remove_covered : forall off e l (m : D unit),
+  Errs (fun e => e = E_ASSERT \/ e = E_VALUE) m ->
+  Errs (fun e => e = E_ASSERT \/ e = E_VALUE) (fold_left (fun m sg => m ;;; remove_covered off e sg) l m).
+Proof.
+  intros off e l. induction l as [|sg l IH]; intros m Hm; cbn [fold_left]; [exact Hm|].
+  apply IH. apply errs_bind; [exact Hm | intro; apply errs_remove_covered].
+Qed.
+
 Lemma errs_lost_segment_handling : forall off len,
   Errs (fun e => e = E_ASSERT \/ e = E_VALUE) (lost_segment_handling off len).
 Proof.
   intros off len. unfold lost_segment_handling, rcfg_or_assert, tracker_add, conf.
-  repeat errs_step; auto.
+  repeat first [ apply errs_fold_remove_covered | errs_step ]; auto.
 Qed.
 
 Lemma bind_ok : forall A B (m : D A) (k : A -> D B) s s1 a, m s = (s1, Ok a) -> bind m k s = k a s1.
